@@ -125,12 +125,22 @@ def scenario(ck, trial, tier, cs0, max_attempts=None):
                     d = RP.DisconnectedRemotePeer(HOSTS[h], 2412, 'OUTGOING', None, 0)
                 d.last_connection_attempt = net.clock()
                 node.activate()
+                older = nm.connected_peers.get(key)           # an existing connection under the same key is dropped as a duplicate
                 direct[0] = True
                 try:
                     lp.start_outgoing_connection(d)
                 except BaseException as e:
                     node.escaped.append(('start_outgoing', repr(e)))
                 direct[0] = False
+                if older is not None and getattr(older.sock, 'closed', False):
+                    # the selector had already reported an event for the dropped connection's socket in the same batch: the
+                    # handler runs for a peer that is gone (its socket is closed) -- the peer book must not notice
+                    import selectors as _sel
+                    try:
+                        lp.handle_remote_peer_selector_event(_sel.SelectorKey(older.sock, -1, _sel.EVENT_READ, older), _sel.EVENT_READ)
+                    except BaseException as e:
+                        node.escaped.append(('stale-event', repr(e)))
+                    ck.count('stale-event-for-dropped-duplicate')
                 for s_ in srv.values():
                     s_.accept_pending()
                 ev = [5, h, 2412, net.clock()]
@@ -316,6 +326,35 @@ def scenario(ck, trial, tier, cs0, max_attempts=None):
         return events, observed, attempts
 
 
+def self_connection_probe(ck, tier, cs0):
+    """a node whose peer book contains its OWN listening address dials itself: both halves of that connection live in the same
+    process and greet each other with the same nonce.  The node recognises the address as its own and never dials it again"""
+    from skepticoin.networking import remote_peer as RP
+    with simnet.Net(seed=ck.rng.getrandbits(30), t0=1_700_000_000) as net:
+        node = net.add_node('N', cs0, host='10.2.0.9', real_store=False)
+        lp = node.lp
+        nm = lp.network_manager
+        dials = []
+        orig_start = lp.start_outgoing_connection
+
+        def rec_start(d, _o=orig_start):
+            dials.append((d.host, d.port, net.clock()))
+            return _o(d)
+        lp.start_outgoing_connection = rec_start
+        nm.disconnected_peers = RP.load_peers_from_list([('10.2.0.9', 2412, 'OUTGOING')])
+        net.run_until_quiet(max_events=4000, step_every=3, dt=7, quiet_needed=60)
+        own = [d for d in dials if d[0] == '10.2.0.9']
+        ck.case(('self-connection',), kind='self-connection/both-halves-in-process',
+                sample={'dials_to_own_address': len(own), 'recognised': ('10.2.0.9', 2412) in nm.my_addresses})
+        if node.escaped:
+            ck.violation('network-loop-exception', 'an exception escaped the event loop: %s' % node.escaped[0][1], {'self_connection': True})
+        elif len(own) > 1:
+            ck.violation('self-connection-retried', 'the node dialled its own listening address %d times over %d s (it is recognised as '
+                         'the node\'s own after the first greeting and never dialled again)' % (len(own), net.clock() - 1_700_000_000),
+                         {'self_connection': True, 'dials': own[:8]})
+        lp.start_outgoing_connection = orig_start
+
+
 def atomic_probe(ck, tier):
     """peers.json is replaced atomically: traced like the wallet file (C15) -- the on-disk content after every
     open/write/flush/close/rename step of write_peers is the complete previous or the complete new list"""
@@ -416,6 +455,11 @@ def run(tier, seed):
         reqs.append(('book_run', [], [NP.TIME_TO_SECOND_CONNECTION_ATTEMPT, NP.MAX_TIME_BETWEEN_CONNECTION_ATTEMPTS,
                                       ma if ma is not None else NP.MAX_CONNECTION_ATTEMPTS, events]))
         wants.append((observed, {'trial': trial}))
+    try:
+        self_connection_probe(ck, tier, cs0)
+    except Exception:
+        import traceback
+        ck.disagree('self-connection probe crashed: %s' % traceback.format_exc()[-500:], {})
     try:
         atomic_probe(ck, tier)
     except Exception:
